@@ -59,6 +59,68 @@ def handleKern (j : Json) : R Json := do
     | "difference", l, r => pure (jKernO (Kern.differenceW l r))
     | _, _, _ => throw s!"bad kern request {fn}"
 
+def hexDigit (n : Nat) : Char := if n < 10 then Char.ofNat (48 + n) else Char.ofNat (87 + n)
+def toHex (bs : List Nat) : String := String.ofList (bs.flatMap fun b => [hexDigit (b / 16), hexDigit (b % 16)])
+def hexVal (c : Char) : Nat :=
+  if c.toNat ≥ 97 then c.toNat - 87 else if c.toNat ≥ 65 then c.toNat - 55 else c.toNat - 48
+def fromHex (s : String) : List Nat :=
+  let rec go : List Char → List Nat
+    | a :: b :: rest => (hexVal a * 16 + hexVal b) :: go rest
+    | _ => []
+  go s.toList
+
+def indxErrName : Indx.Err → String
+  | .header => "header" | .version => "version" | .structShort => "structShort"
+  | .mmapShort => "mmapShort" | .bufferSmall => "bufferSmall" | .valueError m => "valueError:" ++ m
+  | .wrongLength => "wrongLength" | .scope m => "scope:" ++ m
+
+def jEntries (es : List Indx.Entry) : Json :=
+  Json.arr (es.map fun e => Json.arr #[jNats e.coords, jNats e.rowids]).toArray
+
+def parseEntries (j : Json) : R (List Indx.Entry) := do
+  (← arr j).toList.mapM fun e => do
+    let a ← arr e
+    match a.toList with
+    | [c, r] => pure ⟨← natList c, ← natList r⟩
+    | _ => throw "entry must be [coords, rowids]"
+
+def jLoad : Indx.M (List Indx.Entry × Nat × Nat) → Json
+  | .ok (es, c, rw) => Json.mkObj [("ok", Json.mkObj [("entries", jEntries es), ("common", jNat c), ("rw", jNat rw)])]
+  | .error e => Json.mkObj [("err", Json.str (indxErrName e))]
+
+def handleIndx (op : String) (j : Json) : R Json := do
+  match op with
+  | "indx_save" =>
+      let es ← parseEntries (← fld j "entries")
+      let c ← fNat j "common"
+      let wr := match j.getObjVal? "wr" with | .ok v => v.getNat?.toOption.getD 4 | _ => 4
+      let u32 := match j.getObjVal? "u32size" with | .ok (Json.bool b) => b | _ => false
+      match Indx.save es c wr u32 with
+      | .ok bs => pure (Json.mkObj [("ok", Json.str (toHex bs))])
+      | .error e => pure (Json.mkObj [("err", Json.str (indxErrName e))])
+  | "indx_roundtrip" =>
+      let es ← parseEntries (← fld j "entries")
+      let c ← fNat j "common"
+      match Indx.save es c with
+      | .ok bs => pure (jLoad (Indx.load bs))
+      | .error e => pure (Json.mkObj [("err", Json.str ("save:" ++ indxErrName e))])
+  | "indx_layout" =>
+      let es ← parseEntries (← fld j "entries")
+      pure (Json.str (toHex (Indx.encodeWith es (← fNat j "common") (← fNat j "wi") (← fNat j "wr"))))
+  | "indx_load" => pure (jLoad (Indx.load (fromHex (← fStr j "hex"))))
+  | "indx_load_prefixes" =>
+      let bs := fromHex (← fStr j "hex")
+      let res := (List.range bs.length).map fun k =>
+        match Indx.load (bs.take k) with
+        | .ok _ => Json.str "LOADED"
+        | .error e => Json.str (indxErrName e)
+      pure (Json.arr res.toArray)
+  | "indx_size" =>
+      -- size arithmetic only (no data materialised): n entries of arity a, word wi, wr, total row ids
+      let n ← fNat j "n"; let a ← fNat j "arity"; let wi ← fNat j "wi"; let wr ← fNat j "wr"; let t ← fNat j "total"
+      pure (Json.mkObj [("size", jNat (Indx.bufferSize n a wi wr t)), ("size_u32", jNat (Indx.bufferSizeU32 n a wi wr t))])
+  | _ => throw s!"unknown op {op}"
+
 def handle (j : Json) : R Json := do
   let op ← fStr j "op"
   match op with
@@ -69,6 +131,7 @@ def handle (j : Json) : R Json := do
       let s ← fNat j "size"
       pure (Json.mkObj [("fmt", jNat (Gen.formatWidth s)), ("dtype", Json.str (Gen.wordDtype s).name)])
   | "kern" => handleKern j
+  | "indx_save" | "indx_roundtrip" | "indx_layout" | "indx_load" | "indx_load_prefixes" | "indx_size" => handleIndx op j
   | _ => throw s!"unknown op {op}"
 
 partial def loop (h : IO.FS.Stream) (out : IO.FS.Stream) : IO Unit := do
